@@ -9,7 +9,7 @@ from .model import parse_canonical, render
 from .tools import fresh_dir, WORK, build_bins
 
 
-def run(text, cases, keep=False, name="oneoff", twin=True):
+def run(text, cases, keep=False, name="oneoff", twin=True, verbose=False):
     """cases: [(entry, tokens, modes, seed)] -> (unit, [record pristine], [record probed])"""
     g = parse_canonical(text)
     g.text = text
@@ -38,7 +38,7 @@ def run(text, cases, keep=False, name="oneoff", twin=True):
     pr = [res.get(f"p{i}") for i in range(len(cases))]
     qr = [res.get(f"q{i}") for i in range(len(cases))]
     for k, v in res.items():
-        if k.startswith("v"):
+        if k.startswith("v") and verbose:
             print("variant", k, json.dumps(v, ensure_ascii=False))
     if not keep:
         from .tools import rmtree
@@ -60,7 +60,7 @@ def main():
         entry = sys.argv[2] if len(sys.argv) > 2 else ""
         toks = sys.argv[3:]
         modes, sd = "11", 1
-    out = run(text, [(entry, toks, modes, sd)], keep=True)
+    out = run(text, [(entry, toks, modes, sd)], keep=True, verbose=True)
     u = out[0]
     print("llw exit", u.llw_exit, u.llw_stderr[-1500:])
     if u.compile_error:
